@@ -172,7 +172,7 @@ theorem C14_floor_partial (ops : FloatOps F) (s s' : State F) (now : Nat)
     | first hm hl =>
       have := hinit fb' none rfl hm hl (by intro t ht; cases ht)
       omega
-    | double t hm hl _ hd _ =>
+    | double t hm hl _ hd =>
       have := hinit fb' (some t) rfl hm hl (by intro t' ht'; cases ht'; exact hd)
       omega
     | keep _ _ _ _ _ => omega
@@ -400,7 +400,9 @@ example : ∃ s s' r, run Ex.okOps (init Ex.okOps 100000)
 /-! ## 4. slow start -/
 
 /-- **C14_slowstart**: a feedback in slow start that stays in slow start at most doubles the rate
-(or sets it to `initRate rtt'`), capped by the ceiling; `reset_loss_rate` is not invoked. -/
+(or sets it to `initRate rtt'`), capped by the ceiling; `reset_loss_rate` is not invoked. (The
+doubling is `send_rate.saturating_mul(2)`, model `satMul2`, which is `≤ 2 * send_rate` and cannot
+overflow; see `C03_rate_error_cases` for the absence of an overflow trap.) -/
 theorem C14_slowstart (ops : FloatOps F) (s s' : State F) (now : Nat) (fb : Feedback F)
     (r : Option F) (ld ld' : Option Nat) (h : step ops s now (some fb) = .ok (s', r))
     (hm : s.mode = .slowStart ld) (hm' : s'.mode = .slowStart ld') :
@@ -419,7 +421,9 @@ theorem C14_slowstart (ops : FloatOps F) (s s' : State F) (now : Nat) (fb : Feed
     | eqn _ _ => cases hm'
     | leave _ _ _ _ _ => cases hm'
     | first _ hl => exact ⟨by omega, rfl, hl⟩
-    | double _ _ hl _ _ _ => exact ⟨by omega, rfl, hl⟩
+    | double _ _ hl _ _ =>
+      have := satMul2_le_two_mul s.sendRate
+      exact ⟨by omega, rfl, hl⟩
     | keep _ _ hl _ _ => exact ⟨by omega, rfl, hl⟩
 
 example : ∃ s' r, step Ex.okOps
@@ -448,7 +452,7 @@ theorem C14_eqn (ops : FloatOps F) (s s' : State F) (now : Nat) (fb : Feedback F
     | eqn _ _ => exact ⟨rfl, by omega, by omega, rfl⟩
     | leave _ _ hm2 _ _ => rw [hm] at hm2; cases hm2
     | first hm2 _ => rw [hm] at hm2; cases hm2
-    | double _ hm2 _ _ _ _ => rw [hm] at hm2; cases hm2
+    | double _ hm2 _ _ _ => rw [hm] at hm2; cases hm2
     | keep _ hm2 _ _ _ => rw [hm] at hm2; cases hm2
 
 example : ∃ s' r, step Ex.okOps (Ex.st (.eqn 5000) 4000 100000 [⟨1000, 0, false⟩] (some 100)) 10
@@ -485,7 +489,7 @@ theorem C14_eqn_enter (ops : FloatOps F) (s s' : State F) (now : Nat) (fb : Feed
       cases hm'
       exact ⟨rfl, hl, by omega, by omega, p, rfl, hp, (tcpInv_ok_iff _ _ _ _ _ _ _).mp hp⟩
     | first _ _ => cases hm'
-    | double _ _ _ _ _ _ => cases hm'
+    | double _ _ _ _ _ => cases hm'
     | keep _ _ _ _ _ => cases hm'
 
 example : ∃ s' r, step Ex.okOps
@@ -510,7 +514,7 @@ theorem C14_eqn_enter_of_loss (ops : FloatOps F) (s s' : State F) (now : Nat) (f
     | eqn _ hm2 => rw [hm] at hm2; cases hm2
     | leave ld2 p hm2 _ _ => rw [hm] at hm2; cases hm2; rfl
     | first _ hl2 => rw [hl] at hl2; cases hl2
-    | double _ _ hl2 _ _ _ => rw [hl] at hl2; cases hl2
+    | double _ _ hl2 _ _ => rw [hl] at hl2; cases hl2
     | keep _ _ hl2 _ _ => rw [hl] at hl2; cases hl2
 
 example : lossInc Ex.okOps
